@@ -233,4 +233,46 @@ def AddressPayload.enc (p : AddressPayload) : Bytes :=
 /-- `ByronAddress::from_decoded` -/
 def fromDecoded (p : AddressPayload) : ByronAddress := ofPayloadBytes p.enc
 
+/-- derive(Decode), array encoding, three fields (same generated loop as `fieldsDef`, one more index) -/
+def fields3Def {α β γ : Type} (p0 : P α) (p1 : P β) (p2 : P γ) :
+    Nat → Nat → Nat → Option α → Option β → Option γ → P (Option α × Option β × Option γ)
+  | 0, _, _, _, _, _, _ => .err .diverge
+  | fuel + 1, i, len, a, b, c, cur =>
+    if i ≥ len then .ok (a, b, c) cur
+    else if i = 0 then (p0 cur).andThen fun x r => fields3Def p0 p1 p2 fuel (i + 1) len (some x) b c r
+    else if i = 1 then (p1 cur).andThen fun y r => fields3Def p0 p1 p2 fuel (i + 1) len a (some y) c r
+    else if i = 2 then (p2 cur).andThen fun z r => fields3Def p0 p1 p2 fuel (i + 1) len a b (some z) r
+    else (skip cur).andThen fun _ r => fields3Def p0 p1 p2 fuel (i + 1) len a b c r
+
+def fields3Indef {α β γ : Type} (p0 : P α) (p1 : P β) (p2 : P γ) :
+    Nat → Nat → Option α → Option β → Option γ → P (Option α × Option β × Option γ)
+  | 0, _, _, _, _, _ => .err .diverge
+  | fuel + 1, i, a, b, c, cur =>
+    match datatype cur with
+    | .error e => .err e
+    | .ok t =>
+      if t = .brk then (skip cur).map fun _ => (a, b, c)
+      else if i = 0 then (p0 cur).andThen fun x r => fields3Indef p0 p1 p2 fuel (i + 1) (some x) b c r
+      else if i = 1 then (p1 cur).andThen fun y r => fields3Indef p0 p1 p2 fuel (i + 1) a (some y) c r
+      else if i = 2 then (p2 cur).andThen fun z r => fields3Indef p0 p1 p2 fuel (i + 1) a b (some z) r
+      else (skip cur).andThen fun _ r => fields3Indef p0 p1 p2 fuel (i + 1) a b c r
+
+def structArray3 {α β γ : Type} (p0 : P α) (p1 : P β) (p2 : P γ) : P (α × β × γ) := fun cur =>
+  (array cur).andThen fun len r =>
+    let fields := match len with
+      | some n => fields3Def p0 p1 p2 (r.length + 1) 0 n none none none r
+      | none => fields3Indef p0 p1 p2 (r.length + 1) 0 none none none r
+    fields.andThen fun abc r' =>
+      match abc with
+      | (some a, some b, some c) => .ok (a, b, c) r'
+      | _ => .err .missing
+
+/-- `AddressPayload`'s derived decoder: `root: Hash<28>`, `attributes: OrderPreservingProperties<AddrAttrProperty>`,
+    `addrtype: AddrType` (= `u32`) -/
+def AddressPayload.dec : P AddressPayload := fun cur =>
+  (structArray3 hash28 (OPP.dec cAddrAttr) Minicbor.u32 cur).map fun p => ⟨p.1, p.2.1, p.2.2⟩
+
+/-- `ByronAddress::decode()`: the payload bytes decoded as an `AddressPayload` by a fresh decoder -/
+def ByronAddress.decode (a : ByronAddress) : Except Err AddressPayload := decodeTop AddressPayload.dec a.payload
+
 end PallasVerif.Byron
